@@ -63,6 +63,15 @@ CLAIMED = {
          "(old,new) iff the capability is announced. Substantially decides the client side; content equality and server atomicity are not decided.",
     technique="CFG dominance with edge facts on call outcomes + def-use of the content/name arguments + finite-domain path enumeration",
     ref="4/C14"),
+ "C16": dict(
+    text="U1 the supported list evaluates to [DIGEST-MD5, PLAIN, LOGIN, OAUTHBEARER]; U2 the dispatcher's constructed method exists for each entry; "
+         "U3 finite-domain evaluation of the authenticator over every preferred mechanism x every subset/order of announced mechanisms x attempt "
+         "outcome agrees with the reference selection (named implemented mechanism only; else first supported one announced; one attempt; none => "
+         "no send, False; flag iff success); U4 symbolic byte templates of the PLAIN / LOGIN / OAUTHBEARER payloads over the parameters equal the "
+         "RFC 4616 / LOGIN / RFC 7628 formats and credentials are plumbed as utf-8 in the right positions; U5 the gs2 authzid passes the saslname "
+         "escaper; U6 no Python-2 remnants below the mechanisms (DIGEST-MD5: recorded known findings). RFC 2831 arithmetic is not decided.",
+    technique="finite-domain path enumeration of the selection logic + symbolic byte-template evaluation of payload builders + name-resolution lint",
+    ref="4/C16"),
 }
 NA = {}
 
